@@ -287,6 +287,45 @@ def part_k(res, fa, codec, seen):
                 res.add(Violation("c05.k", "independent-records-differ:codec-spelling", f"{how} accepted codec={spelled!r}; independent parser recovers {short(got, 200)}", info))
 
 
+def part_m(res, fa, codec, seen):
+    """A caller-supplied sync marker that is not 16 bytes long: refused, or else the file still is a container file."""
+    S = {"type": "record", "name": "Rm", "fields": [{"name": "a", "type": "long"}, {"name": "s", "type": "string"}]}
+    recs = [{"a": 1, "s": "x"}, {"a": -8192, "s": "é" * 40}, {"a": 3, "s": ""}]
+    node, defs = names.resolve(S)
+    exp = cont.expected(node, defs, recs)
+    for n in (0, 1, 8, 15, 17, 32, 36):
+        for iv in (1, 16000):
+            marker = bytes(range(65, 65 + n))
+            info = {"part": "m", "schema": S, "records": recs, "codec": codec, "marker_length": n, "sync_interval": iv}
+            note_case(info)
+            res.evals += 1
+            fo = io.BytesIO()
+            try:
+                fa.writer(fo, copy.deepcopy(S), copy.deepcopy(recs), codec=codec, sync_marker=marker, sync_interval=iv)
+            except Exception:
+                continue  # refused
+            data = fo.getvalue()
+            seen.add(data)
+            try:
+                p = container.parse(data)
+                got, _ = container.records(p)
+            except Exception as e:
+                res.add(Violation("c05.m", f"independent-parse-failed:{type(e).__name__}:marker-length", f"writer accepted a {n}-byte sync marker; an independent parser rejects the file: {e}", info))
+                continue
+            if len(got) != len(exp) or not all(same(a, b) for a, b in zip(got, exp)):
+                res.add(Violation("c05.m", "independent-records-differ:marker-length", f"writer accepted a {n}-byte sync marker; independent parser recovers {short(got, 200)}", info))
+
+
+class ForwardOnly:
+    """A stream that can only be read forward (a pipe, a socket): read() and nothing else."""
+
+    def __init__(self, data):
+        self._fo = io.BytesIO(data)
+
+    def read(self, n=-1):
+        return self._fo.read(n)
+
+
 def part_h(res, fa, codec, seen):
     """Files written through the Writer class while some records are refused (non-conforming
     records raise part-way or are rejected by validation): the independent parser must find
@@ -467,6 +506,13 @@ def part_b(res, fa, si, codec, tier, seen):
                     except Exception as e:
                         res.add(Violation("c05.b.reader", f"reader-raised:{type(e).__name__}", f"reader raised {type(e).__name__}: {e} on a layout-valid file | {short(info, 500)}", info))
                         continue
+                    # the same file delivered through a forward-only stream (a pipe): reader() needs nothing but read()
+                    try:
+                        got_f = list(fa.reader(ForwardOnly(data)))
+                    except Exception as e:
+                        got_f = f"{type(e).__name__}: {e}"
+                    if got_f != got:
+                        res.add(Violation("c05.b.reader", "reader-forward-only-differs", f"through a forward-only stream reader gives {short(got_f, 200)}, through BytesIO {short(got, 200)} | {short(info, 400)}", info))
                     if len(got) != len(exp) or not all(same(a, b) for a, b in zip(got, exp)):
                         res.add(Violation("c05.b.reader", "reader-records-differ", f"reader returns {short(got, 200)} expected {short(exp, 200)} | {short(info, 500)}", info))
                     if r.codec != codec:
@@ -542,6 +588,7 @@ def run_unit(unit, tier):
         part_i(res, fa, unit[1], seen)
     elif unit[0] == "k":
         part_k(res, fa, unit[1], seen)
+        part_m(res, fa, unit[1], seen)
     elif unit[0] == "c":
         part_c(res, fa, unit[1], seen)
     elif unit[0] == "d":
@@ -571,6 +618,9 @@ def replay(case):
         return res.violations
     elif part == "k":
         part_k(res, fa, case["codec"].strip().lower(), set())
+        return res.violations
+    elif part == "m":
+        part_m(res, fa, case["codec"], set())
         return res.violations
     elif part == "g":
         si = [i for i, (n, r) in enumerate(cont.top_schemas()) if r == case["schema"]][0]
